@@ -39,7 +39,7 @@ MacrosCovered == Level = "quick" \/ Vals("mac") = MAC
 Affects == [m \in MAC \ {"none"} |->
     CASE m = "FASTOR_USE_HADD" -> {"C16", "C08", "C01", "C03", "C10"}
       [] m \in {"FASTOR_MATMUL_OUTER_BLOCK_SIZE=1", "FASTOR_MATMUL_OUTER_BLOCK_SIZE=3", "FASTOR_MATMUL_INNER_BLOCK_SIZE=1", "FASTOR_MATMUL_INNER_BLOCK_SIZE=3"} -> {"C01", "C17"}
-      [] m = "FASTOR_MATMUL_INNER_BLOCK_SIZE=5" -> {"C01"}
+      [] m = "FASTOR_MATMUL_INNER_BLOCK_SIZE=5" -> {"C01", "C17"}
       [] m \in {"FASTOR_TRANS_OUTER_BLOCK_SIZE=2", "FASTOR_TRANS_INNER_BLOCK_SIZE=4"} -> {"C14"}
       [] m \in {"FASTOR_DONT_PERFORM_OP_MIN", "FASTOR_KEEP_DP_FIXED"} -> {"C03"}          \* C15 runs its whole plan under both macros itself
       [] m = "FASTOR_USE_VECTORISED_EXPR_ASSIGN" -> {"C05", "C04", "C19"}
@@ -49,13 +49,13 @@ Affects == [m \in MAC \ {"none"} |->
 Sweep == JsonDeserialize(IOEnv.CONFIG_SWEEP)        \* sequence of [area, cfgs] chosen by the driver
 Wide == {"avx", "avx2", "avx512"}
 \* every sweep has a macro-free baseline to compare with; every (macro, area) of Affects is run with the macro on a wide ISA
-\* (thorough: on AVX2 and on AVX-512; quick-tier sweeps may leave out an area -- C17 -- that the thorough tier includes)
+\* (thorough: on AVX2 and on AVX-512)
 SweepJobOK(j) == /\ \E k \in 1..Len(j.cfgs) : j.cfgs[k].mac = "none" /\ j.cfgs[k].isa \in Wide
                  /\ \A k \in 1..Len(j.cfgs) : j.cfgs[k].isa \in ISA /\ j.cfgs[k].mac \in MAC
 Covered(m, a, isa) == \E s \in 1..Len(Sweep) : Sweep[s].area = a /\ \E k \in 1..Len(Sweep[s].cfgs) : Sweep[s].cfgs[k].mac = m /\ Sweep[s].cfgs[k].isa = isa
 SweepOK == /\ \A s \in 1..Len(Sweep) : SweepJobOK(Sweep[s])
            /\ \A m \in MAC \ {"none"} : \A a \in Affects[m] :
                  IF Level = "thorough" THEN Covered(m, a, "avx2") /\ Covered(m, a, "avx512")
-                 ELSE a = "C17" \/ \E isa \in Wide : Covered(m, a, isa)
+                 ELSE \E isa \in Wide : Covered(m, a, isa)
 ArrayOK == EveryValueCovered /\ PairsCovered /\ MacrosCovered
 =====================================================================================
